@@ -228,9 +228,11 @@ func sm2P256GetScalar(b *[32]byte, a []byte) {
 	n := new(big.Int).SetBytes(a)
 	if n.Cmp(sm2P256.N) >= 0 {
 		n.Mod(n, sm2P256.N)
-		scalarBytes = n.Bytes()
-	} else {
-		scalarBytes = a
+	}
+	// minimal encoding: a may carry leading zero bytes beyond 32
+	scalarBytes = n.Bytes()
+	if len(scalarBytes) > len(b) {
+		scalarBytes = scalarBytes[len(scalarBytes)-len(b):]
 	}
 	for i, v := range scalarBytes {
 		b[len(scalarBytes)-(1+i)] = v
